@@ -404,7 +404,8 @@ class NETReader:
         """
         # Defining an expression for valid word
         word_expr = Word(alphanums + "_" + "-")("nodename")
-        name_expr = Suppress(Keyword("node")) + word_expr + Optional(Suppress("{"))
+        # a declaration is "node <name> {"; a parent may itself be named `node`
+        name_expr = Suppress(Keyword("node")) + word_expr + Suppress("{")
 
         word_expr2 = Word(initChars=printables, excludeChars=["(", ")", ",", " "])
         state_expr = ZeroOrMore(word_expr2 + Optional(Suppress(",")))
